@@ -165,9 +165,10 @@ def replay(ctx, h, cfg, tag, inputs, kind):
     if native is None: return False, err, None
     f = os.path.join(ctx.work, '%s_%s.replay.in' % (h['name'], tag))
     with open(f, 'w') as fh: fh.write('\n'.join(str(x) for x in inputs) + '\n')
-    obs, rc, errtxt = native_obs(native, f)
+    obs, rc, errtxt = native_obs(native, f, HANG_CAP if kind == 'nontermination' else 120)
     detail = {'native_rc': rc, 'native_obs_tail': (obs or [])[-6:], 'native_stderr_tail': errtxt[-1500:]}
     if kind == 'property': ok = rc == 10
+    elif kind == 'nontermination': ok = rc == 'timeout'      # the real code is still running after HANG_CAP seconds on the solver's inputs
     elif kind == 'exception': ok = rc == 11
     elif kind == 'reach': ok = rc == 12
     elif kind == 'uninit':
@@ -236,9 +237,10 @@ def main():
             bc, err = build_query(ctx, h, cfg, tag)
             if bc is None: return item, tag, {'rc': 2, 'stdout': 'VSYMEX-INCONCLUSIVE ' + err, 'json': None, 'wall_s': 0}
             tl = int(os.environ.get('VERIF_TIME_LIMIT', h.get('time_limit', {}).get(tier, 600 if tier == 'quick' else 3000)))
+            extra = ['--path-limit', str(cfg['_path_limit'])] if cfg.get('_path_limit') else []
             if cfg.get('_heavy'):
-                with HEAVY: res = run_engine(ctx, bc, bc + '.json', (int(os.environ['VERIF_TIME_LIMIT']) if os.environ.get('VERIF_TIME_LIMIT') else cfg.get('_time', tl)), mem_gb=cfg.get('_mem_gb'))
-            else: res = run_engine(ctx, bc, bc + '.json', (int(os.environ['VERIF_TIME_LIMIT']) if os.environ.get('VERIF_TIME_LIMIT') else cfg.get('_time', tl)), mem_gb=cfg.get('_mem_gb'))
+                with HEAVY: res = run_engine(ctx, bc, bc + '.json', (int(os.environ['VERIF_TIME_LIMIT']) if os.environ.get('VERIF_TIME_LIMIT') else cfg.get('_time', tl)), extra=extra, mem_gb=cfg.get('_mem_gb'))
+            else: res = run_engine(ctx, bc, bc + '.json', (int(os.environ['VERIF_TIME_LIMIT']) if os.environ.get('VERIF_TIME_LIMIT') else cfg.get('_time', tl)), extra=extra, mem_gb=cfg.get('_mem_gb'))
             if not ctx.keep and role != 'main':
                 try: os.remove(bc)
                 except OSError: pass
@@ -272,7 +274,7 @@ def main():
         for (h, cfg, role), tag, res in results:
             j = res['json'] or {}
             q = {'harness': h['name'], 'config': cfgname(cfg), 'role': role, 'verdict': j.get('verdict', 'inconclusive'), 'wall_s': round(res['wall_s'], 2),
-                 'instructions': j.get('instructions', 0), 'forks': j.get('forks', 0), 'merges': j.get('merges', 0), 'input_vars': j.get('input_vars', 0),
+                 'instructions': j.get('instructions', 0), 'max_path_steps': j.get('max_path_steps', 0), 'forks': j.get('forks', 0), 'merges': j.get('merges', 0), 'input_vars': j.get('input_vars', 0),
                  'checks_decided_by_normal_form': j.get('checks_folded', 0), 'checks_decided_by_smt': j.get('checks_solver', 0), 'smt_queries': j.get('solver_queries', 0), 'smt_s': j.get('solver_s', 0),
                  'term_nodes': j.get('term_nodes', 0), 'functions': j.get('functions', [])}
             queries.append(q)
@@ -339,6 +341,7 @@ def main():
                 'functions_encoded': sorted(set(f for q in main_q for f in q['functions']))[:400],
                 'translation_units': sorted(set(t for h in harnesses for t in h['tus'])),
                 'bounds': spec.get('bounds', {}).get(tier, spec.get('bounds', {}).get('quick', '')), 'outside_bounds': spec.get('outside', ''),
+                'longest_path_instructions': max([q.get('max_path_steps', 0) for q in queries] or [0]), 'path_limit_instructions': 30000000,
                 'selftests': selftests, 'known_findings_reproduced': [k[0] for k in known_hits], 'inconclusive': inconclusive[:10],
                 'all_queries': [{k: v for k, v in q.items() if k != 'functions'} for q in queries][:200],
                 'exhaustive': False,
